@@ -53,6 +53,229 @@ Proof. destruct b; reflexivity. Qed.
 Section WithFlag.
 Context {FL : Policy}.
 
+(* ---- Variable::of_type at run time: the default value of a type is a good value of it;
+        the fresh closures have the typed body `return <good constant>`, the fresh cells hold
+        good values of their declared content type ---- *)
+Lemma map_snd_default_params ps : map snd (default_params ps) = ps.
+Proof.
+  unfold default_params. generalize O. induction ps as [|p ps IH]; intros i; [reflexivity|].
+  cbn [map snd]. rewrite IH. reflexivity.
+Qed.
+
+Lemma nodup_keys_fst {A B} (l : list (ident * A)) (l' : list (ident * B)) :
+  map fst l = map fst l' -> nodup_keys l = nodup_keys l'.
+Proof.
+  revert l'. induction l as [|[k a] l IH]; intros [|[k' b] l'] H; try discriminate H; [reflexivity|].
+  cbn [map fst] in H. injection H as <- H. cbn [nodup_keys]. rewrite (IH l' H). f_equal. f_equal.
+  clear IH. revert l' H. induction l as [|[k1 a1] l IH]; intros [|[k2 b2] l'] H; try discriminate H;
+    [reflexivity|].
+  cbn [map fst] in H. injection H as <- H. cbn [existsb fst]. rewrite (IH l' H). reflexivity.
+Qed.
+
+Lemma assoc_aligned {A B} (P : A -> B -> Prop) (l : list (ident * A)) (l' : list (ident * B)) k b :
+  Forall2 (fun x y => fst x = fst y /\ P (snd x) (snd y)) l l' ->
+  nodup_keys l' = true -> In (k, b) l' -> exists a, assoc k l = Some a /\ P a b.
+Proof.
+  intros H. induction H as [|[k1 a1] [k2 b2] l l' [Hk Hp] _ IH]; intros Hn Hin; [destruct Hin|].
+  cbn [fst snd] in *. subst k2. cbn [nodup_keys] in Hn. apply andb_true_iff in Hn.
+  destruct Hn as [Hn1 Hn2]. destruct Hin as [Heq|Hin].
+  - injection Heq as <- <-. exists a1. cbn [assoc]. rewrite ident_eqb_refl. auto.
+  - cbn [assoc]. destruct (ident_eqb k k1) eqn:Ek.
+    + exfalso. apply ident_eqb_eq in Ek. subst k1. apply negb_true_iff in Hn1.
+      assert (Hex : existsb (fun kv : ident * B => ident_eqb k (fst kv)) l' = true).
+      { apply existsb_exists. exists (k, b). split; [exact Hin|]. cbn [fst]. apply ident_eqb_refl. }
+      rewrite Hex in Hn1. discriminate Hn1.
+    + apply IH; assumption.
+Qed.
+
+Theorem alloc_default_sound : forall t W st d st',
+  wf_ty t = true -> store_ok W st -> alloc_default t st = Some (d, st') ->
+  exists W', ext W W' /\ store_ok W' st' /\ gv W' d t.
+Proof.
+  induction t as [t IH] using ty_size_ind. intros W st d st' Wt HS H.
+  assert (Triv : forall v, has_type v t = true -> vgood W v -> Some (v, st) = Some (d, st') ->
+                   exists W', ext W W' /\ store_ok W' st' /\ gv W' d t).
+  { intros v Hv Hg E. injection E as <- <-. exists W. split; [apply ext_refl|]. split; [exact HS|].
+    split; assumption. }
+  destruct t as [| | | | | | |ps r|e|ts|ms|e|fs]; cbn [alloc_default] in H;
+    try (refine (Triv _ _ _ H); [reflexivity|exact I]); try discriminate H.
+  - (* function *)
+    destruct (alloc_default r st) as [[d0 st0]|] eqn:Hr; [|discriminate H].
+    destruct (wf_fun_parts _ _ Wt) as [Wps Wr].
+    destruct (IH r ltac:(szs) W st d0 st0 Wr HS Hr) as [W1 [HE1 [HS1 [Hd Hg]]]].
+    pose proof (closure_alloc_sound W1 st0 None (default_params ps) [IUn UReturn (IVar d0)] r
+                  (closure_env None (default_params ps) r) [TNever] HS1) as C.
+    rewrite map_snd_default_params in C. specialize (C Wt).
+    destruct C as [HE2 [HS2 Hv]].
+    + apply TL_cons with (G1 := closure_env None (default_params ps) r); [|apply TL_nil].
+      apply Ln_stm. apply (T_Return W1 _ _ (IVar d0) (as_type d0) r);
+        [apply T_Var; exact Hg|reflexivity|apply (has_type_tag _ _ Hd)].
+    + right. left. reflexivity.
+    + destruct (alloc_fun st0 _) as [st2 id]. cbn [fst snd] in *. injection H as <- <-.
+      eexists. split; [apply (ext_trans W W1 _ HE1 HE2)|]. split; [exact HS2|exact Hv].
+  - (* array *)
+    apply (Triv (VArr e [])); [|rewrite vgood_arr; split; [exact Wt|constructor]|exact H].
+    apply has_type_intro; [cbn [as_type]; apply matches_refl; exact Wt|reflexivity].
+  - (* tuple *)
+    assert (Go : forall ts0, (forall t0, In t0 ts0 -> In t0 ts) -> forall W st vs st',
+              store_ok W st ->
+              (fix go (ts : list ty) (st : store) : option (list value * store) :=
+                 match ts with
+                 | [] => Some ([], st)
+                 | t :: ts => match alloc_default t st with
+                              | Some (v, st) => match go ts st with
+                                                | Some (vs, st) => Some (v :: vs, st) | None => None end
+                              | None => None
+                              end
+                 end) ts0 st = Some (vs, st') ->
+              exists W', ext W W' /\ store_ok W' st' /\ Forall2 (gv W') vs ts0).
+    { induction ts0 as [|t0 ts0 IHts]; intros Hsub W1 st1 vs st1' HS1 Hgo.
+      - injection Hgo as <- <-. exists W1. split; [apply ext_refl|]. split; [exact HS1|constructor].
+      - destruct (alloc_default t0 st1) as [[v st2]|] eqn:H0; [|discriminate Hgo].
+        assert (Hin : In t0 ts) by (apply Hsub; left; reflexivity).
+        assert (W0t : wf_ty t0 = true).
+        { cbn [wf_ty] in Wt. rewrite forallb_forall in Wt. apply Wt. exact Hin. }
+        destruct (IH t0 ltac:(szs) W1 st1 v st2 W0t HS1 H0) as [W2 [HE2 [HS2 Hv]]].
+        match type of Hgo with match ?X with _ => _ end = _ => destruct X as [[vs' st3]|] eqn:Hr end;
+          [|discriminate Hgo].
+        injection Hgo as <- <-.
+        destruct (IHts (fun t1 H1 => Hsub t1 (or_intror H1)) W2 st2 vs' st3 HS2 Hr)
+          as [W3 [HE3 [HS3 Hvs]]].
+        exists W3. split; [apply (ext_trans W1 W2 W3); assumption|]. split; [exact HS3|].
+        constructor; [apply (gv_mono W2 W3); assumption|exact Hvs]. }
+    match type of H with match ?X with _ => _ end = _ => destruct X as [[vs st1]|] eqn:Hgo end;
+      [|discriminate H].
+    injection H as <- <-.
+    destruct (Go ts (fun t0 H0 => H0) W st vs st1 HS Hgo) as [W1 [HE1 [HS1 Hvs]]].
+    exists W1. split; [exact HE1|]. split; [exact HS1|]. split.
+    + rewrite tuple_typed. apply (Forall2_gv_all2 W1). exact Hvs.
+    + rewrite vgood_tup. apply (Forall2_gv_good W1 vs ts). exact Hvs.
+  - (* union: the first member *)
+    destruct ms as [|m ms]; [discriminate H|].
+    destruct (wf_multi_inv _ Wt) as [_ [_ [Wm _]]].
+    destruct (IH m ltac:(cbn [size sizes_with fold_right]; lia) W st d st'
+                (Wm m (or_introl eq_refl)) HS H) as [W1 [HE1 [HS1 [Hd Hg]]]].
+    exists W1. split; [exact HE1|]. split; [exact HS1|]. split; [|exact Hg].
+    apply (has_type_multi_intro d m); [left; reflexivity|exact Hd].
+  - (* cell *)
+    destruct (alloc_default e st) as [[d0 st0]|] eqn:He; [|discriminate H].
+    cbn [wf_ty] in Wt.
+    destruct (IH e ltac:(szs) W st d0 st0 Wt HS He) as [W1 [HE1 [HS1 Hd]]].
+    destruct (store_ok_alloc W1 st0 d0 e HS1 Hd Wt) as [HS2 Hv].
+    destruct (alloc_cell st0 d0) as [st2 loc]. cbn [fst snd] in *. injection H as <- <-.
+    exists (W_alloc W1 e). split; [apply (ext_trans W W1 _ HE1 (ext_alloc W1 e))|].
+    split; [exact HS2|exact Hv].
+  - (* struct *)
+    assert (Go : forall fs0, (forall kt, In kt fs0 -> In kt fs) -> forall W st vs st',
+              store_ok W st ->
+              (fix go (fs : list (ident * ty)) (st : store) : option (list (ident * value) * store) :=
+                 match fs with
+                 | [] => Some ([], st)
+                 | (k, t) :: fs => match alloc_default t st with
+                                   | Some (v, st) => match go fs st with
+                                                     | Some (vs, st) => Some ((k, v) :: vs, st) | None => None end
+                                   | None => None
+                                   end
+                 end) fs0 st = Some (vs, st') ->
+              exists W', ext W W' /\ store_ok W' st' /\
+                Forall2 (fun x y => fst x = fst y /\ gv W' (snd x) (snd y)) vs fs0).
+    { induction fs0 as [|[k0 t0] fs0 IHfs]; intros Hsub W1 st1 vs st1' HS1 Hgo.
+      - injection Hgo as <- <-. exists W1. split; [apply ext_refl|]. split; [exact HS1|constructor].
+      - destruct (alloc_default t0 st1) as [[v st2]|] eqn:H0; [|discriminate Hgo].
+        assert (Hin : In (k0, t0) fs) by (apply Hsub; left; reflexivity).
+        assert (W0t : wf_ty t0 = true).
+        { cbn [wf_ty] in Wt. apply andb_true_iff in Wt. destruct Wt as [_ Wt].
+          rewrite forallb_forall in Wt. apply (Wt (k0, t0) Hin). }
+        destruct (IH t0 ltac:(szs) W1 st1 v st2 W0t HS1 H0) as [W2 [HE2 [HS2 Hv]]].
+        match type of Hgo with match ?X with _ => _ end = _ => destruct X as [[vs' st3]|] eqn:Hr end;
+          [|discriminate Hgo].
+        injection Hgo as <- <-.
+        destruct (IHfs (fun kt H1 => Hsub kt (or_intror H1)) W2 st2 vs' st3 HS2 Hr)
+          as [W3 [HE3 [HS3 Hvs]]].
+        exists W3. split; [apply (ext_trans W1 W2 W3); assumption|]. split; [exact HS3|].
+        constructor; [split; [reflexivity|apply (gv_mono W2 W3); assumption]|exact Hvs]. }
+    match type of H with match ?X with _ => _ end = _ => destruct X as [[vs st1]|] eqn:Hgo end;
+      [|discriminate H].
+    injection H as <- <-.
+    destruct (Go fs (fun kt H0 => H0) W st vs st1 HS Hgo) as [W1 [HE1 [HS1 Hvs]]].
+    pose proof Wt as Wt'. cbn [wf_ty] in Wt'. apply andb_true_iff in Wt'. destruct Wt' as [Hnd _].
+    assert (Hkeys : map fst vs = map fst fs).
+    { clear - Hvs. induction Hvs as [|x y l l' [Hk _] _ IHl]; [reflexivity|].
+      cbn [map]. rewrite Hk, IHl. reflexivity. }
+    exists W1. split; [exact HE1|]. split; [exact HS1|]. split.
+    + rewrite has_type_struct. apply forallb_forall. intros [k t] Hkt. cbn [fst snd].
+      destruct (assoc_aligned (gv W1) vs fs k t Hvs Hnd Hkt) as [x [Hx [Hxt _]]].
+      rewrite Hx. exact Hxt.
+    + rewrite vgood_struct. split; [rewrite (nodup_keys_fst vs fs Hkeys); exact Hnd|].
+      clear - Hvs. induction Hvs as [|x y l l' [_ [_ Hg]] _ IHl]; constructor; assumption.
+Qed.
+
+(* definedness agrees with the pure [of_type] the checker tests *)
+Lemma alloc_default_defined : forall t st, of_type t <> None -> alloc_default t st <> None.
+Proof.
+  induction t as [t IH] using ty_size_ind. intros st H.
+  destruct t as [| | | | | | |ps r|e|ts|ms|e|fs]; cbn [alloc_default]; try discriminate;
+    try (exfalso; apply H; reflexivity).
+  - cbn [of_type] in H. destruct (of_type r) eqn:Er; [|exfalso; apply H; reflexivity].
+    pose proof (IH r ltac:(szs) st ltac:(rewrite Er; discriminate)) as Hr.
+    destruct (alloc_default r st) as [[d st0]|]; [|exfalso; apply Hr; reflexivity].
+    destruct (alloc_fun st0 _). discriminate.
+  - rewrite of_type_tup in H. destruct (of_types ts) as [vs0|] eqn:Eo; [|exfalso; apply H; reflexivity].
+    assert (Go : forall ts0, (forall t0, In t0 ts0 -> In t0 ts) -> forall vs0, of_types ts0 = Some vs0 ->
+              forall st,
+              (fix go (ts : list ty) (st : store) : option (list value * store) :=
+                 match ts with
+                 | [] => Some ([], st)
+                 | t :: ts => match alloc_default t st with
+                              | Some (v, st) => match go ts st with
+                                                | Some (vs, st) => Some (v :: vs, st) | None => None end
+                              | None => None
+                              end
+                 end) ts0 st <> None).
+    { induction ts0 as [|t0 ts0 IHts]; intros Hsub vs1 Hof st1; [discriminate|].
+      cbn [of_types] in Hof. destruct (of_type t0) as [v0|] eqn:E0; [|discriminate Hof].
+      destruct (of_types ts0) as [vs2|] eqn:E1; [|discriminate Hof].
+      assert (Hin : In t0 ts) by (apply Hsub; left; reflexivity).
+      pose proof (IH t0 ltac:(szs) st1 ltac:(rewrite E0; discriminate)) as H0. simpl.
+      destruct (alloc_default t0 st1) as [[v st2]|]; [|exfalso; apply H0; reflexivity].
+      pose proof (IHts (fun t1 H1 => Hsub t1 (or_intror H1)) vs2 eq_refl st2) as H1.
+      match goal with |- match ?X with _ => _ end <> _ => destruct X as [[? ?]|] end;
+        [discriminate|exfalso; apply H1; reflexivity]. }
+    pose proof (Go ts (fun t0 H0 => H0) vs0 Eo st) as G1.
+    match goal with |- match ?X with _ => _ end <> _ => destruct X as [[? ?]|] end;
+      [discriminate|exfalso; apply G1; reflexivity].
+  - cbn [of_type] in H. destruct ms as [|m ms]; [exfalso; apply H; reflexivity|].
+    apply IH; [cbn [size sizes_with fold_right]; lia|exact H].
+  - cbn [of_type] in H. destruct (of_type e) eqn:Ee; [|exfalso; apply H; reflexivity].
+    pose proof (IH e ltac:(szs) st ltac:(rewrite Ee; discriminate)) as He.
+    destruct (alloc_default e st) as [[d st0]|]; [|exfalso; apply He; reflexivity].
+    destruct (alloc_cell st0 d). discriminate.
+  - rewrite of_type_struct in H. destruct (of_fields fs) as [vs0|] eqn:Eo; [|exfalso; apply H; reflexivity].
+    assert (Go : forall fs0, (forall kt, In kt fs0 -> In kt fs) -> forall vs0, of_fields fs0 = Some vs0 ->
+              forall st,
+              (fix go (fs : list (ident * ty)) (st : store) : option (list (ident * value) * store) :=
+                 match fs with
+                 | [] => Some ([], st)
+                 | (k, t) :: fs => match alloc_default t st with
+                                   | Some (v, st) => match go fs st with
+                                                     | Some (vs, st) => Some ((k, v) :: vs, st) | None => None end
+                                   | None => None
+                                   end
+                 end) fs0 st <> None).
+    { induction fs0 as [|[k0 t0] fs0 IHfs]; intros Hsub vs1 Hof st1; [discriminate|].
+      cbn [of_fields] in Hof. destruct (of_type t0) as [v0|] eqn:E0; [|discriminate Hof].
+      destruct (of_fields fs0) as [vs2|] eqn:E1; [|discriminate Hof].
+      assert (Hin : In (k0, t0) fs) by (apply Hsub; left; reflexivity).
+      pose proof (IH t0 ltac:(szs) st1 ltac:(rewrite E0; discriminate)) as H0. simpl.
+      destruct (alloc_default t0 st1) as [[v st2]|]; [|exfalso; apply H0; reflexivity].
+      pose proof (IHfs (fun kt H1 => Hsub kt (or_intror H1)) vs2 eq_refl st2) as H1.
+      match goal with |- match ?X with _ => _ end <> _ => destruct X as [[? ?]|] end;
+        [discriminate|exfalso; apply H1; reflexivity]. }
+    pose proof (Go fs (fun kt H0 => H0) vs0 Eo st) as G1.
+    match goal with |- match ?X with _ => _ end <> _ => destruct X as [[? ?]|] end;
+      [discriminate|exfalso; apply G1; reflexivity].
+Qed.
+
 Section Sound.
 Variable powf : fbits -> fbits -> fbits.
 Variable pre : prelude.
@@ -220,14 +443,13 @@ Qed.
 (* ---- it ? T : a new closure running the template of type_filter.rs ---- *)
 Lemma type_filter_body_typed W fid r' d t :
   vgood W (VFun fid [] r') -> matches r' (TTup [TBool; TAny]) = true ->
-  wf_ty t = true -> of_type t = Some d -> vgood W d ->
+  wf_ty t = true -> gv W d t ->
   exists G'' Ts, typed_list W (closure_env None [] (TTup [TBool; t]))
                    (mkK false (Some (TTup [TBool; t]))) (type_filter_body (VFun fid [] r') d t) G'' Ts /\
                  (matches TVoid (TTup [TBool; t]) = true \/ In TNever Ts).
 Proof.
-  intros Hg Mr Wt Hd Hgd. destruct Hg as [Wf Hsig].
+  intros Hg Mr Wt [Hdt Hgd]. destruct Hg as [Wf Hsig].
   assert (Wr : wf_ty r' = true) by (cbn [wf_ty forallb] in Wf; exact Wf).
-  pose proof (of_type_has_type t d Wt Hd) as Hdt.
   assert (Mdt : matches (TTup [TBool; as_type d]) (TTup [TBool; t]) = true).
   { rewrite matches_tup. cbn [all2]. rewrite (has_type_tag _ _ Hdt). reflexivity. }
   (* the two component types the template reads off the iterator's result type *)
@@ -301,22 +523,27 @@ Qed.
 
 Lemma case_type_filter n (IH : sound_at n) W0 G K x t T d W st sc :
   typed W0 G K x T -> wf_ty t = true -> is_iterator T = true ->
-  of_type t = Some d -> vgood W0 d -> ctx_ok W0 W st sc G ->
+  of_type t = Some d -> ctx_ok W0 W st sc G ->
   concl W K (it_of t) sc (E (S n) st sc (ITypeFilter x t)).
 Proof.
-  intros Hx Wt Hit Hd Hgd HC. rewrite exec_S_ITypeFilter.
+  intros Hx Wt Hit Hd HC. rewrite exec_S_ITypeFilter.
   apply (with_val_sound powf pre n IH W0 G K x T); [exact Hx|exact HC|].
-  intros W1 st1 v HE1 HC1 Hv. rewrite Hd.
+  intros W1 st1 v HE1 HC1 Hv.
+  pose proof (alloc_default_defined t st1 ltac:(rewrite Hd; discriminate)) as Hdef.
+  destruct (alloc_default t st1) as [[d1 st1']|] eqn:Ha; [|exfalso; apply Hdef; reflexivity].
+  destruct (alloc_default_sound t W1 st1 d1 st1' Wt (ctx_store _ _ _ _ _ HC1) Ha)
+    as [W1' [HE1' [HS1' Hd1]]].
+  apply (concl_ext W1 W1'); [exact HE1'|].
+  apply (gv_mono W1 W1') in Hv; [|exact HE1'].
   unfold is_iterator, ITERATOR_TYPE in Hit. change (TFun [] (TTup [TBool; TAny])) with (it_of TAny) in Hit.
-  destruct (iter_value_shape W1 v T TAny Hv Hit) as [fid [r' [-> [Mr Hg]]]].
-  assert (Hgd1 : vgood W1 d) by (apply (vgood_mono W0 W1); [apply (ctx_ext _ _ _ _ _ HC1)|exact Hgd]).
-  destruct (type_filter_body_typed W1 fid r' d t Hg Mr Wt Hd Hgd1) as [G'' [Ts [Hb Hend]]].
+  destruct (iter_value_shape W1' v T TAny Hv Hit) as [fid [r' [-> [Mr Hg]]]].
+  destruct (type_filter_body_typed W1' fid r' d1 t Hg Mr Wt Hd1) as [G'' [Ts [Hb Hend]]].
   assert (Wf : wf_ty (TFun (map snd (@nil (name * ty))) (TTup [TBool; t])) = true)
     by (cbn [map wf_ty forallb]; rewrite Wt; reflexivity).
-  destruct (closure_alloc_sound W1 st1 None [] _ (TTup [TBool; t]) G'' Ts
-              (ctx_store _ _ _ _ _ HC1) Wf Hb Hend) as [HE [HS Hgv]].
-  destruct (alloc_fun st1 _) as [st2 id]. cbn [fst snd map] in *.
-  apply (concl_ext W1 _ K _ sc _ HE). apply concl_val; assumption.
+  destruct (closure_alloc_sound W1' st1' None [] _ (TTup [TBool; t]) G'' Ts HS1' Wf Hb Hend)
+    as [HE [HS Hgv]].
+  destruct (alloc_fun st1' _) as [st2 id]. cbn [fst snd map] in *.
+  apply (concl_ext W1' _ K _ sc _ HE). apply concl_val; assumption.
 Qed.
 
 (* ---- it \ p (partition): ([yes], [no]) ---- *)
